@@ -300,9 +300,12 @@ class OTranslate(OSet):
     def __init__(self, inner, vec):
         self.inner, self.vec, self.dim = inner, vec, inner.dim
 
-    def mem(self, p, prm, L, tol=0, strict=False):
+    def to_inner(self, p, prm, L):
         v = _ev(self.vec, prm)
-        return self.inner.mem([p[i] - v[i] for i in range(len(p))], prm, L, tol, strict)
+        return [p[i] - v[i] for i in range(len(p))]
+
+    def mem(self, p, prm, L, tol=0, strict=False):
+        return self.inner.mem(self.to_inner(p, prm, L), prm, L, tol, strict)
 
     def volume(self, prm, L):
         return self.inner.volume(prm, L)
@@ -319,13 +322,15 @@ class ORotate2D(OSet):
     def __init__(self, inner, cs, around):
         self.inner, self.cs, self.around = inner, cs, around
 
-    def mem(self, p, prm, L, tol=0, strict=False):
+    def to_inner(self, p, prm, L):
         c, s = self.cs(prm)
         a = _ev(self.around, prm)
         x, y = p[0] - a[0], p[1] - a[1]
         # inverse rotation R^T (x, y)
-        q = [c * x + s * y + a[0], -s * x + c * y + a[1]]
-        return self.inner.mem(q, prm, L, tol, strict)
+        return [c * x + s * y + a[0], -s * x + c * y + a[1]]
+
+    def mem(self, p, prm, L, tol=0, strict=False):
+        return self.inner.mem(self.to_inner(p, prm, L), prm, L, tol, strict)
 
     def volume(self, prm, L):
         return self.inner.volume(prm, L)
